@@ -1517,7 +1517,12 @@ class ParamMapper:
             else:
                 paramVals.append(val)
 
-        return np.array(paramVals, dtype=object)
+        # one entry per parameter, whatever the values are (np.array(paramVals, dtype=object) would
+        # build a 2-D array when every value is an array of the same length)
+        out = np.empty(len(paramVals), dtype=object)
+        for i, val in enumerate(paramVals):
+            out[i] = val
+        return out
 
     @staticmethod
     def _scalarParamSetter(block, vals, paramNames):
